@@ -76,7 +76,7 @@ PROPS = {
         "rule": "disjoint unions of 2..200 planted or linear sub-systems (each 1..12 constraints), requests interleaved at random, variable ids offset and shuffled; each group is first solved alone on the real code; the union must succeed with the same verdicts per group and the same values for every variable that is not under-constrained within 1e-5*scale",
     },
     "C05": {
-        "modules": ["Ezpz.Properties.C05", "Ezpz.Real.Kernel", "Ezpz.Real.Dof", "Ezpz.Real.DofEntry"],
+        "modules": ["Ezpz.Properties.C05", "Ezpz.Real.Kernel", "Ezpz.Real.Dof", "Ezpz.Real.DofEntry", "Ezpz.Real.StepExamples"],
         "suites": [
             {"suite": "trace", "quick": (2500, "planted,linear,prio,contra,collapsed,pinned,large"), "thorough": (24000, "planted,linear,prio,contra,caps,conflict,disparity,collapsed,pinned,large")},
         ],
@@ -90,7 +90,7 @@ PROPS = {
         "rule": "planted and linear systems with 0..15 constraints and 2..40 variables (incl. pinned, free-floating, rank-deficient but over-determined, free variables hidden behind equalities, no constraints, and multi-priority lists whose lower level solves but stays unsatisfied so that the previous level is what is returned): solve_analysis on the real code vs numpy null space of a finite-difference Jacobian at the returned point; cases without a clear gap in the singular values or participations are excluded by the oracle",
     },
     "C02": {
-        "modules": ["Ezpz.Properties.C02", "Ezpz.Real.GaussNewton", "Ezpz.Real.GaussNewton3", "Ezpz.Real.LocalContraction", "Ezpz.Real.ContinuityGN", "Ezpz.Real.LinearEntry", "Ezpz.Real.FDerivKinds", "Ezpz.Real.FDerivEntry", "Ezpz.Real.Fixes", "Ezpz.Real.FDerivKinds2", "Ezpz.Real.FDerivEntry2"],
+        "modules": ["Ezpz.Properties.C02", "Ezpz.Real.GaussNewton", "Ezpz.Real.GaussNewton3", "Ezpz.Real.LocalContraction", "Ezpz.Real.ContinuityGN", "Ezpz.Real.LinearEntry", "Ezpz.Real.FDerivKinds", "Ezpz.Real.FDerivEntry", "Ezpz.Real.Fixes", "Ezpz.Real.FDerivKinds2", "Ezpz.Real.FDerivEntry2", "Ezpz.Real.FDerivLoop"],
         "suites": [
             {"suite": "kernels", "quick": (750,), "thorough": (10000,)},
             {"suite": "trace", "quick": (2000, "planted,linear,prio,collapsed,pinned,large"), "thorough": (18000, "planted,linear,prio,caps,disparity,collapsed,pinned,large")},
@@ -98,14 +98,14 @@ PROPS = {
         "oracles": [
             {"bin": "oracle_c02", "min_stats": {"checked": 0.35, "with_short_feature": 0.0487, "fully_pinned": 0.1, "full_rank": 0.04}, "quick": ("{seed}", "15000"), "thorough": ("{seed}", "200000")},
         ],
-        "partial": ["convergence of the f64 iteration (success, iteration count <= 8, landing within 1.5x) is NOT proved: the theorems give the loop's anatomy (every round is residual test -> damped step of the Jacobian at the current point -> step test), existence/uniqueness/descent of the exact step, monotone approach on consistent linear systems, and the abstract contraction argument with the constant 1.5; that a given planted system satisfies the contraction hypothesis is left to the oracle on the real code; the exact-arithmetic statement is now instantiated for the MODEL's own assembled residual and Jacobian (Real/FDerivEntry.lean): for request lists made of every kind except PointArcCoincident (Real/FDerivKinds.lean: the guard-free kinds with no hypothesis, distance / linesEqualLength / arcRadius with points strictly farther apart than EPS; Real/FDerivKinds2.lean: the three point-line distances, lineTangentToCircle, symmetric, arcLength, circleTangentToCircle, explicit angles and arcAngle, each under the hypothesis that every guard of its residual and Jacobian kernel is strictly inactive at x* and, for the angle kinds, that x* is off the atan2 cut - RegularAt2) the assembled residual rOf is Frechet differentiable at x* with derivative the model's Jacobian JOf, JOf is continuous there (hasFDerivAt_rOf_regular), one continuing round of the model's newtonStep with an exact solver IS the map x -> x - (J^T J + lambda I)^-1 J^T r(x) (newtonStep_eq_gnMap, all kinds), and hence for a zero x* with sigma_min(J)^2 >= c > lambda the CONTINUING rounds the model's loop executes from within rho of x* halve the error and stay within 1.5|x0 - x*| of the guess (model_newtonRun_C02, model_newtonRun_C02_2; four concrete non-linear systems meet the hypotheses of the gnMap form with lambda = 1e-9; the extra step applied when the loop returns at the step-size test is not covered, and the statement is not lifted to solveWithPriority); PointArcCoincident (three gated rows) is not covered by the Frechet bridge, and nothing here is about f64",
+        "partial": ["convergence of the f64 iteration (success, iteration count <= 8, landing within 1.5x) is NOT proved: the theorems give the loop's anatomy (every round is residual test -> damped step of the Jacobian at the current point -> step test), existence/uniqueness/descent of the exact step, monotone approach on consistent linear systems, and the abstract contraction argument with the constant 1.5; that a given planted system satisfies the contraction hypothesis is left to the oracle on the real code; the exact-arithmetic statement is now instantiated for the MODEL's own assembled residual and Jacobian (Real/FDerivEntry.lean): for request lists made of every kind except PointArcCoincident (Real/FDerivKinds.lean: the guard-free kinds with no hypothesis, distance / linesEqualLength / arcRadius with points strictly farther apart than EPS; Real/FDerivKinds2.lean: the three point-line distances, lineTangentToCircle, symmetric, arcLength, circleTangentToCircle, explicit angles and arcAngle, each under the hypothesis that every guard of its residual and Jacobian kernel is strictly inactive at x* and, for the angle kinds, that x* is off the atan2 cut - RegularAt2) the assembled residual rOf is Frechet differentiable at x* with derivative the model's Jacobian JOf, JOf is continuous there (hasFDerivAt_rOf_regular), one continuing round of the model's newtonStep with an exact solver IS the map x -> x - (J^T J + lambda I)^-1 J^T r(x) (newtonStep_eq_gnMap, all kinds), and hence for a zero x* with sigma_min(J)^2 >= c > lambda the CONTINUING rounds the model's loop executes from within rho of x* halve the error and stay within 1.5|x0 - x*| of the guess (model_newtonRun_C02, model_newtonRun_C02_2; four concrete non-linear systems meet the hypotheses of the gnMap form with lambda = 1e-9; and - Real/FDerivLoop.lean - for the RESULT of the loop, including the extra step of a step-size return: model_newtonLoop_C02 (|res.values - x*| <= (1/2)^(iterations - k) |x - x*| and |res.values - x| <= 1.5 |x - x*|), model_solveInner_C02 and model_solve_C02_single_level (the same two bounds for o.finalValues relative to the guesses at the public entry point with one priority level; loop_C02_example_with_step is a run with a genuine step); not lifted to several priority levels; PointArcCoincident (three gated rows) is not covered by the Frechet bridge, and nothing here is about f64",
                     "gauss_newton_local_C02 (LocalContraction.lean) proves the whole chain for the exact iteration: error map differentiable at x* with Jacobian J, sigma_min(J)^2 >= c > lambda > 0, iteration operator continuous at x* => a ball around x* on which the error halves every round and no iterate is farther from the guess than 1.5x; continuity of the iteration operator is derived from continuity of the Jacobian at x* (gauss_newton_local_C02_of_continuous_jacobian); rank-deficient ('not pinned down') systems are outside it: the defect operator is the identity on ker J (damped_defect_on_kernel), which is the regime of known finding F15",
                     "under-determined planted systems do land farther than 1.5x from the guess in about 0.02% of the cases on the real code (known finding F15)"],
         "assumptions": ["the LU answer is a parameter of the loop theorems; over the reals it is characterised by IsStep (existence and uniqueness proved), and held to it on recorded traces by the step certificate"],
         "rule": "planted-solution systems: random geometry X*, 1..15 constraints of any of the 23 kinds sharing entities with parameters derived from X*, anchored or free-floating, one in ten with an additional short fully determined feature (edge or arc of size 1.5e-3..9e-3 with its guess off by up to 30% of its size), guesses X* + delta with |delta| <= 1e-2*scale; the oracle demands Ok, all satisfied, <= 8 iterations and |x_out - x0| <= 1.5|x0 - X*| + 1e-9, excluding (by the oracle) degenerate / ill-conditioned plants and branch switches inside the ball",
     },
     "C04": {
-        "modules": ["Ezpz.Properties.C04", "Ezpz.Real.GaussNewton", "Ezpz.Real.GaussNewton2", "Ezpz.Real.GaussNewton3", "Ezpz.Real.Linear", "Ezpz.Real.LinearConvergence", "Ezpz.Real.GapExists", "Ezpz.Proofs.Untouched2", "Ezpz.Real.UntouchedEntry", "Ezpz.Real.LinearEntry"],
+        "modules": ["Ezpz.Properties.C04", "Ezpz.Real.GaussNewton", "Ezpz.Real.GaussNewton2", "Ezpz.Real.GaussNewton3", "Ezpz.Real.Linear", "Ezpz.Real.LinearConvergence", "Ezpz.Real.GapExists", "Ezpz.Proofs.Untouched2", "Ezpz.Real.UntouchedEntry", "Ezpz.Real.LinearEntry", "Ezpz.Real.StepExamples"],
         "suites": [
             {"suite": "kernels", "quick": (750,), "thorough": (10000,)},
             {"suite": "trace", "quick": (2000, "linear,planted,contra,conflict,collapsed,pinned,large"), "thorough": (18000, "linear,planted,contra,conflict,prio,caps,collapsed,pinned,large")},
@@ -114,7 +114,7 @@ PROPS = {
             {"bin": "oracle_c04.py", "min_stats": {"systems": 0.5, "consistent": 0.129, "inconsistent": 0.335, "ok": 0.47, "unmentioned_variables_checked": 2.26}, "python": True, "quick": ("{seed}", "2000"), "thorough": ("{seed}", "8000")},
         ],
         "partial": ["the 1e-4*scale closeness of the f64 result to the exact minimum-norm least-squares point (effect of lambda = 1e-9, of stopping early, of rounding) is not proved: the theorems give the exact algebra (one step is the Tikhonov minimiser; displacement stays in range(A^T); a stationary point with displacement in range(A^T) is the unique nearest least-squares point; the last step d certifies stationarity up to lambda*|d|); in exact arithmetic a consistent system converges geometrically with factor lambda/(c+lambda) per round to the solution nearest the guess, c a lower bound of |Az|^2/|z|^2 on range(A^T), which exists and is positive for every matrix (gap_exists), and the nearest solution exists (nearest_solution_exists): linear_consistent_converges_from_guess has no hypothesis beyond consistency; that the f64 iteration gets there within 35 rounds and stops is left to the exact-rational oracle on the real code",
-                    "unmentioned variables: untouched_var_fixed' (Proofs/Untouched2.lean, every scalar type) says: no request mentions j (=> no triplet in column j, jacobianAll_no_column) and the solver returns a neutral element of + in slot j for Jacobians without a column j (ZeroStepOn) => j is returned at its guess; over the reals every exact solver satisfies ZeroStepOn (zeroStepOn_of_exact via untouched_var_step_zero), giving unmentioned_variable_returned_at_guess with no hypothesis on the solver beyond exactness with a non-zero damping (its non-vacuity example is a run that takes no step; LinearEntry's examples take one); that faer's LU returns exactly 0.0 there is checked on every recorded trace (zero-column certificate). For f64 'exactly at its guess' means equal as numbers: a guess of -0.0 comes back as +0.0 (-0.0 + 0.0)",
+                    "unmentioned variables: untouched_var_fixed' (Proofs/Untouched2.lean, every scalar type) says: no request mentions j (=> no triplet in column j, jacobianAll_no_column) and the solver returns a neutral element of + in slot j for Jacobians without a column j (ZeroStepOn) => j is returned at its guess; over the reals every exact solver satisfies ZeroStepOn (zeroStepOn_of_exact via untouched_var_step_zero), giving unmentioned_variable_returned_at_guess with no hypothesis on the solver beyond exactness with a non-zero damping (StepEx.unmentioned_example_with_step is a run that takes a real step with an exact damped solver); that faer's LU returns exactly 0.0 there is checked on every recorded trace (zero-column certificate). For f64 'exactly at its guess' means equal as numbers: a guess of -0.0 comes back as +0.0 (-0.0 + 0.0)",
                     "the linear-algebra theorems are tied to the model by Real/LinearEntry.lean: for a list of linear kinds the assembled residual is A x - b with a constant A (assembled_affine), one round of the model's loop with an exact solver is IsStep A (A x - b) lambda (x' - x) (newtonStep_isStep), and after j executed rounds of newtonLoop the squared distance to the nearest solution of a consistent system has contracted by q^(2j), q < 1 depending only on the requests and lambda (newtonRun_converges_prefix, newtonLoop_result_contracts); for inconsistent systems existence of the limit point is not proved (nearest_least_squares characterises it if it is reached)"],
         "assumptions": ["the LU answer is a parameter; IsStep characterises it over the reals"],
         "rule": "linear systems over up to 8 points with dyadic-rational parameters and guesses (consistent, redundant, contradictory, rank-deficient) solved by the real code and compared with x* = x0 + pinv(A)(b - A x0) computed exactly (sympy rationals); systems of any kind with extra unmentioned variables must return those at their guesses (equal as f64 values: bit for bit except that a -0.0 guess may come back as +0.0)",
@@ -132,7 +132,7 @@ PROPS = {
         "assumptions": ["the per-level solve is a parameter of the priority theorems: they hold for whatever solve_inner computes"],
     },
     "C14": {
-        "modules": ["Ezpz.Properties.C14", "Ezpz.Real.Tolerance", "Ezpz.Proofs.Caps", "Ezpz.Real.ToleranceEntry"],
+        "modules": ["Ezpz.Properties.C14", "Ezpz.Real.Tolerance", "Ezpz.Proofs.Caps", "Ezpz.Real.ToleranceEntry", "Ezpz.Real.ToleranceVisited"],
         "suites": [
             {"suite": "trace", "quick": (2000, "caps,prio,planted,contra,collapsed,pinned,large"), "thorough": (18000, "caps,prio,planted,contra,linear,malformed,collapsed,pinned,large")},
         ],
@@ -140,7 +140,7 @@ PROPS = {
             {"bin": "oracle_c14", "min_stats": {"systems": 0.5, "runs": 7.0, "ok_runs": 5.38, "did_not_converge_runs": 1.6, "multi_level_systems": 0.167, "tolerance_checks": 0.343, "round_count_runs": 3.5}, "quick": ("{seed}", "1500"), "thorough": ("{seed}", "6000")},
         ],
         "partial": ["single priority level: solve_cap_monotone_single_level (Proofs/Caps.lean) - unconditional at the public entry point; error direction for ANY request list: solve_cap_monotone_err (DidNotConverge under cap c' => DidNotConverge with the same sizes under every c <= c'); several levels, success direction: solve_cap_monotone_partial needs the hypothesis that no level call runs out of iterations under the smaller cap - without it the statement is false of model and code (known finding F11; machine-checked witnesses cap_not_monotone_multi_level over the reals and cap_not_monotone_multi_level_float evaluated at f64)",
-                    "the tolerance clause is proved over the reals at the public outcome (Real/ToleranceEntry.lean: solve_within_tolerance - every residual component of every attempted request at the returned values is <= the configured tolerance when the returned level stopped on the residual test; solve_within_tolerance_of_silent replaces the ghost flag by the condition StepTestSilent, which - as a second audit showed - can only be met when the step tolerance is 0 (its threshold is unbounded in the configuration for any positive step tolerance): for the default and every positive step tolerance the proved clause is the one with the ghost flag byResidual); that the f64 iteration reaches the residual test for a given tighter tolerance is a convergence claim, checked by the oracle on the real code only"],
+                    "the tolerance clause is proved over the reals at the public outcome (Real/ToleranceEntry.lean: solve_within_tolerance - every residual component of every attempted request at the returned values is <= the configured tolerance when the returned level stopped on the residual test; solve_within_tolerance_of_silentOn (Real/ToleranceVisited.lean) replaces the ghost flag by an observable condition on the configurations the run visits (the step test does not fire at any visited configuration), satisfiable with the default positive step tolerance (tvSolve: Config.default, one real step); the older StepTestSilent quantified over every configuration and can only be met with step tolerance 0 (tv_not_silent)); that the f64 iteration reaches the residual test for a given tighter tolerance is a convergence claim, checked by the oracle on the real code only"],
         "assumptions": ["the LU solve is a parameter indexed by (level, iteration): the theorems hold for every such family"],
     },
     "C01": {
